@@ -10,6 +10,7 @@ package main
 import (
 	"context"
 	"fmt"
+	"strings"
 	"sync"
 
 	"0chain.net/chaincore/block"
@@ -137,16 +138,10 @@ func aggTicketsIn(w *world, items []aggItem, tp *ticketPool) (code int, ran bool
 		return 0, false
 	}
 	m := items[0].Msg
-	seen := map[string]bool{}
 	for _, it := range items {
 		if it.Msg != m {
 			return 0, false
 		}
-		pk := w.pubHex(it.Key)
-		if seen[pk] {
-			return 0, false
-		}
-		seen[pk] = true
 	}
 	c, _ := getChain()
 	mb := block.NewMagicBlock()
@@ -159,11 +154,15 @@ func aggTicketsIn(w *world, items []aggItem, tp *ticketPool) (code int, ran bool
 		mb.Miners = tp.pool
 	}
 	var bvts []*block.VerificationTicket
+	local := map[string]*node.Node{}
 	for _, it := range items {
 		pk := w.pubHex(it.Key)
 		var nd *node.Node
 		if tp != nil {
 			nd = tp.nodes[pk]
+		}
+		if nd == nil {
+			nd = local[pk] // several tickets of one verifier in the same call share the node
 		}
 		if nd == nil {
 			nd = node.Provider()
@@ -175,6 +174,7 @@ func aggTicketsIn(w *world, items []aggItem, tp *ticketPool) (code int, ran bool
 			if tp != nil {
 				tp.nodes[pk] = nd
 			}
+			local[pk] = nd
 		}
 		bvts = append(bvts, &block.VerificationTicket{VerifierID: nd.GetKey(), Signature: w.sigHex(it.Sig)})
 	}
@@ -342,12 +342,13 @@ func genHist(h *c32Hist, r *vh.Rand) {
 func genAgg(in *c32Input, r *vh.Rand) {
 	in.NKeys = 4
 	patterns := []string{"none", "none", "single", "foreign-key", "cancel2", "cancel2", "cancel3", "swap", "rogue", "dup-item", "wrong-msg",
-		"zero-neg-sum", "zero-neg-sum", "zero-arbitrary", "zero-single", "off-by-point"}
+		"zero-neg-sum", "zero-neg-sum", "zero-arbitrary", "zero-single", "off-by-point",
+		"dupv-valid-then-other-block", "dupv-valid-then-other-key", "dupv-valid-then-padding", "dupv-invalid-then-valid", "dupv-all-valid"}
 	in.Pattern = patterns[r.Intn(len(patterns))]
 	n := r.Range(1, 9)
 	sameMsg := r.Chance(1, 3)
-	if in.Pattern == "rogue" {
-		sameMsg = true
+	if in.Pattern == "rogue" || strings.HasPrefix(in.Pattern, "dupv-") {
+		sameMsg = true // tickets: every verifier signs the same block hash
 	}
 	if n < 3 && (in.Pattern == "cancel3") {
 		n = 3
@@ -406,6 +407,33 @@ func genAgg(in *c32Input, r *vh.Rand) {
 		in.Items = in.Items[:2]
 	case "dup-item":
 		in.Items = append(in.Items, in.Items[i])
+	case "dupv-valid-then-other-block", "dupv-valid-then-other-key", "dupv-valid-then-padding", "dupv-invalid-then-valid", "dupv-all-valid":
+		// the same verifier appears again later in the ticket list
+		v := in.Items[i]
+		kk := v.Key[0].K
+		var bad spoint
+		switch in.Pattern {
+		case "dupv-valid-then-other-block", "dupv-invalid-then-valid":
+			bad = spoint{{key(kk), 15}} // the verifier's signature over another block
+		case "dupv-valid-then-other-key":
+			bad = genuine((kk+1)%in.NKeys, v.Msg)
+		case "dupv-valid-then-padding":
+			bad = spoint{d(c)}
+		}
+		copies := r.Range(1, 3)
+		switch in.Pattern {
+		case "dupv-all-valid":
+			for x := 0; x < copies; x++ {
+				in.Items = append(in.Items, v)
+			}
+		case "dupv-invalid-then-valid":
+			in.Items[i].Sig = bad
+			in.Items = append(in.Items, v)
+		default:
+			for x := 0; x < copies; x++ {
+				in.Items = append(in.Items, aggItem{v.Key, v.Msg, bad})
+			}
+		}
 	case "zero-neg-sum":
 		// one forged signature = minus the sum of all others: the aggregate is the identity of G1
 		var neg spoint
@@ -453,7 +481,7 @@ func runC32(o vh.Opts) {
 	rep := vh.NewReport("hash", "C32", o)
 	rep.Rule = "1-10 signatures over 4 keys, distinct messages (transaction batches) or one message (tickets), batch sizes 1,2,3,5,n,n+3,64; " +
 		"corruption patterns: none, one corrupted, foreign key, wrong message, two and three cancelling perturbations, swapped signatures, rogue key, " +
-		"repeated item, non-cancelling pair, signatures summing to the identity (one = minus the sum of the others; arbitrary points; the identity alone); " +
+		"repeated item, repeated verifier in a ticket set (first valid then signed over another block / by another key / padding; first invalid then valid; all valid), non-cancelling pair, signatures summing to the identity (one = minus the sum of the others; arbitrary points; the identity alone); " +
 		"Verify judged both by its bool and by err only (what the callers look at); plus histories of 2-7 verifications in sequence over the SAME " +
 		"long-lived scheme objects / node pool / client cache (honest set, re-check, leader alone, leader alone carrying the sum of the set, one corrupted), " +
 		"each call compared with the individual checks and with the same call on fresh objects; each run on the real aggregate scheme and, where the shape allows, on chain.VerifyTickets and miner.ValidateTransactions; " +
